@@ -262,9 +262,17 @@ impl Game {
         rep.eval("C10");
         rep.nontriv("C10", fnv(&w));
         let raw = arr_raw(&w);
-        let Some(ab) = raw else {
-            rep.fail("C10", "not-well-formed", self, hex_words(&w, " "));
-            return;
+        // an inconsistent set of bitboards is a C10 failure; the remaining oracles go on with the board as the
+        // engine's own square lookup shows it, so that later consequences (wrong preview, re-typed piece) are found
+        let ab = match raw {
+            Some(b) => b,
+            None => {
+                rep.fail("C10", "not-well-formed", self, hex_words(&w, " "));
+                match guard(|| arr(&pb)) {
+                    Some(b) => b,
+                    None => return,
+                }
+            }
         };
         if arr(&pb) != ab {
             rep.fail("C10", "square-lookup-disagrees", self, hex_words(&w, " "));
@@ -364,6 +372,9 @@ impl Game {
         if step > 0 {
             if term.is_some() != va.is_empty() {
                 rep.fail("C07", "mid-turn-result-vs-list", self, format!("term={:?} va={:?}", term, va));
+            }
+            if step == 3 && va.is_empty() && !self.start.starts_with("CRAFT") && !self.start.starts_with("STATE") {
+                rep.count("fourth-step-empty-list-in-a-played-game");
             }
             if let Some(t) = &term {
                 rep.count("mid-turn-loss");
@@ -486,6 +497,9 @@ impl Game {
 
         // ---- C08 ----------------------------------------------------------------------------
         rep.eval("C08");
+        if hash_impl_word(s) != raw_hash(s) {
+            rep.fail("C08", "hash-impl-feeds-a-different-word-than-eq-compares", self, format!("impl Hash writes {:016x}, the board-state hash is {:016x}", hash_impl_word(s), raw_hash(s)));
+        }
         let scratch = Zobrist::from_piece_board(&pb, side, step).board_state_hash_with_push_pull_state(pps);
         if s.transposition_hash() != scratch {
             rep.fail("C08", "hash-differs-from-scratch", self, format!("{:016x} vs {:016x}", s.transposition_hash(), scratch));
@@ -589,10 +603,16 @@ impl Game {
                 rep.eval("C13");
                 let pv = s.trapped_animal_for_action(a);
                 let Some(nx) = self.take(a, rep) else { continue };
-                let Some(nbd) = arr_raw(&words(nx.piece_board())) else {
-                    rep.fail("C10", "not-well-formed-after-step", self, enc_action(a));
-                    rep.fail("C02", "step-leaves-inconsistent-bitboards", self, format!("{}: the per-type, per-side and all-pieces boards no longer describe one piece per square", enc_action(a)));
-                    continue;
+                let nbd = match arr_raw(&words(nx.piece_board())) {
+                    Some(b) => b,
+                    None => {
+                        rep.fail("C10", "not-well-formed-after-step", self, enc_action(a));
+                        rep.fail("C02", "step-leaves-inconsistent-bitboards", self, format!("{}: the per-type, per-side and all-pieces boards no longer describe one piece per square", enc_action(a)));
+                        match guard(|| arr(nx.piece_board())) {
+                            Some(b) => b,
+                            None => continue,
+                        }
+                    }
                 };
                 let dest = nb(i, dn);
                 if dest.is_none() || ab[i].is_none() || ab[dest.unwrap()].is_some() {
